@@ -118,6 +118,157 @@ theorem debugLinkFilesLoop_no_panic {σ β : Type} (h : Hasher σ) (chunk : Nat)
   rw [debugLinkFilesLoop_refines h chunk hc wanted fs hsz]
   split <;> simp
 
+/-! ### MODULE line: the id token is stable under extension of the line -/
+
+theorem dropWhile_append_of_ne_nil {α : Type} (p : α → Bool) (l e : List α) (h : l.dropWhile p ≠ []) :
+    (l ++ e).dropWhile p = l.dropWhile p ++ e := by
+  induction l with
+  | nil => simp at h
+  | cons a l ih =>
+    simp only [List.cons_append, List.dropWhile_cons] at h ⊢
+    by_cases hp : p a = true
+    · simp only [hp, if_true] at h ⊢; exact ih h
+    · simp [hp]
+
+theorem takeWhile_append_of_ne_nil {α : Type} (p : α → Bool) (l e : List α) (h : l.dropWhile p ≠ []) :
+    (l ++ e).takeWhile p = l.takeWhile p := by
+  induction l with
+  | nil => simp at h
+  | cons a l ih =>
+    simp only [List.cons_append, List.dropWhile_cons, List.takeWhile_cons] at h ⊢
+    by_cases hp : p a = true
+    · simp only [hp, if_true] at h ⊢; rw [ih h]
+    · simp [hp]
+
+theorem space1_ne_nil {l r : List UInt8} (h : space1 l = some r) : l ≠ [] := by
+  cases l <;> simp [space1] at h ⊢
+
+theorem space1_append {l r : List UInt8} (e : List UInt8) (h : space1 l = some r) (hr : r ≠ []) :
+    space1 (l ++ e) = some (r ++ e) := by
+  cases l with
+  | nil => simp [space1] at h
+  | cons b t =>
+    simp only [space1, List.cons_append] at h ⊢
+    split at h
+    · rename_i hb
+      cases h
+      simp only [hb, if_true]
+      rw [dropWhile_append_of_ne_nil _ _ _ hr]
+    · cases h
+
+theorem space1_append_isSome {l r : List UInt8} (e : List UInt8) (h : space1 l = some r) :
+    ∃ r', space1 (l ++ e) = some r' := by
+  cases l with
+  | nil => simp [space1] at h
+  | cons b t =>
+    simp only [space1, List.cons_append] at h ⊢
+    split at h
+    · rename_i hb; exact ⟨(t ++ e).dropWhile isSp, by simp [hb]⟩
+    · cases h
+
+theorem dropWhile_ne_nil_imp {α : Type} (p : α → Bool) {l : List α} (h : l.dropWhile p ≠ []) : l ≠ [] := by
+  cases l <;> simp at h ⊢
+
+theorem stripTag_append {l r : List UInt8} (e : List UInt8) (h : stripTag l = some r) :
+    stripTag (l ++ e) = some (r ++ e) := by
+  simp only [stripTag] at h ⊢
+  split at h
+  · rename_i ht
+    cases h
+    have hlen : 6 ≤ l.length := by
+      have := congrArg List.length ht
+      simp [tagModule, List.length_take] at this
+      omega
+    rw [List.take_append_of_le_length hlen, if_pos ht, List.drop_append_of_le_length hlen]
+  · cases h
+
+/-- A line whose id token is `t` keeps that token when anything is appended to it: every token before the name is
+delimited by a blank that is already part of the line. -/
+theorem idToken_append (l e t : List UInt8) (h : idToken l = some t) : idToken (l ++ e) = some t := by
+  unfold idToken at h
+  cases h0 : stripTag l with
+  | none => simp [h0] at h
+  | some r0 =>
+  simp only [h0] at h
+  cases h1 : space1 r0 with
+  | none => simp [h1] at h
+  | some r1 =>
+  simp only [h1] at h
+  cases h2 : space1 (r1.dropWhile notBlank) with
+  | none => simp [h2] at h
+  | some r2 =>
+  simp only [h2] at h
+  cases h3 : space1 (r2.dropWhile notBlank) with
+  | none => simp [h3] at h
+  | some r3 =>
+  simp only [h3] at h
+  split at h
+  · cases h
+  · rename_i hne
+    cases h4 : space1 (r3.dropWhile isHexDigit) with
+    | none => simp [h4] at h
+    | some r4 =>
+    simp only [h4, Option.some.injEq] at h
+    -- non-emptiness of every remainder, from the last blank upwards
+    have n3d : r3.dropWhile isHexDigit ≠ [] := space1_ne_nil h4
+    have n3 : r3 ≠ [] := dropWhile_ne_nil_imp _ n3d
+    have n2d : r2.dropWhile notBlank ≠ [] := space1_ne_nil h3
+    have n2 : r2 ≠ [] := dropWhile_ne_nil_imp _ n2d
+    have n1d : r1.dropWhile notBlank ≠ [] := space1_ne_nil h2
+    have n1 : r1 ≠ [] := dropWhile_ne_nil_imp _ n1d
+    obtain ⟨r4', h4'⟩ := space1_append_isSome e h4
+    unfold idToken
+    simp only [stripTag_append e h0, space1_append e h1 n1, dropWhile_append_of_ne_nil _ _ _ n1d,
+      space1_append e h2 n2, dropWhile_append_of_ne_nil _ _ _ n2d, space1_append e h3 n3,
+      takeWhile_append_of_ne_nil _ _ _ n3d, dropWhile_append_of_ne_nil _ _ _ n3d, h4', hne]
+    simpa using h
+
+theorem firstLine_append_of_no_lf (l rest : List UInt8) (h : ∀ b ∈ l, (b != 10) = true) :
+    firstLine (l ++ rest) = l ++ firstLine rest := by
+  induction l with
+  | nil => rfl
+  | cons a l ih =>
+    have ha := h a List.mem_cons_self
+    simp only [firstLine, List.cons_append, List.takeWhile_cons, ha, if_true] at ih ⊢
+    rw [ih (fun b hb => h b (List.mem_cons_of_mem _ hb))]
+
+theorem firstLine_no_lf (l : List UInt8) : ∀ b ∈ firstLine l, (b != 10) = true := by
+  induction l with
+  | nil => intro b hb; simp [firstLine] at hb
+  | cons a l ih =>
+    intro b hb
+    simp only [firstLine, List.takeWhile_cons] at hb ih
+    split at hb
+    · rename_i ha
+      rcases List.mem_cons.1 hb with rfl | hb'
+      · exact ha
+      · exact ih b hb'
+    · simp at hb
+
+/-- The repaired comparison implies: a sidecar that is used states the id of the `.sym`'s own MODULE line
+(whenever it states one at all). -/
+theorem BpCand.own_eq_sideId_of_used {ι : Type} (parseId : List UInt8 → Option (DebugId ι)) (c : BpCand)
+    (hu : c.sidecarUsed = true) (d : DebugId ι) (hs : c.sideId parseId = some d) : c.own parseId = some d := by
+  simp only [BpCand.sidecarUsed] at hu
+  cases hside : c.side with
+  | ok info =>
+    simp only [hside, Bool.and_eq_true, decide_eq_true_eq] at hu
+    simp only [BpCand.sideId, hside] at hs
+    simp only [BpCand.own]
+    obtain ⟨_, hpre⟩ := hu
+    -- head = moduleLine ++ rest
+    have hhead : c.head = firstLine info ++ c.head.drop (firstLine info).length := by
+      conv => lhs; rw [← List.take_append_drop (firstLine info).length c.head]
+      rw [hpre]
+    rw [hhead, firstLine_append_of_no_lf _ _ (firstLine_no_lf info)]
+    cases ht : idToken (firstLine info) with
+    | none => simp [ht] at hs
+    | some t =>
+      rw [idToken_append _ _ t ht]
+      simpa [ht] using hs
+  | unreadable => simp [hside] at hu
+  | unparsable => simp [hside] at hu
+
 /-! ### dyld loop -/
 
 theorem dyldLoop_ok {α ι : Type} [DecidableEq ι] (idOf : α → Option (DebugId ι)) (d : Option (Disamb ι))
